@@ -2,7 +2,7 @@ use super::*;
 use crate::cache::AsyncLruCache;
 use crate::cache::AsyncLruCacheEntry;
 use crate::error::Qcow2Result;
-use crate::helpers::qcow2_type_of;
+use crate::helpers::{qcow2_type_of, IntAlignment, Qcow2IoBuf};
 use crate::meta::{L1Entry, L1Table, L2Table, SplitGuestOffset, Table, TableEntry};
 use futures_locks::{RwLock as AsyncRwLock, RwLockWriteGuard as LockWriteGuard};
 use std::collections::hash_map::Entry;
@@ -56,7 +56,16 @@ impl<T: Qcow2IoOps> Qcow2Dev<T> {
     where
         F: FnOnce(&mut Qcow2Header),
     {
-        let buf = h.serialize_to_buf()?;
+        let header = h.serialize_to_buf()?;
+
+        // like every other request this one has to cover whole blocks and
+        // come from an aligned buffer (direct io); the rest of the header
+        // cluster behind the extensions and the backing file name is unused
+        let bs = 1usize << self.info.block_size_shift;
+        let mut buf = Qcow2IoBuf::<u8>::new(header.len().align_up(bs).unwrap());
+        buf.zero_buf();
+        buf[..header.len()].copy_from_slice(&header);
+
         if let Err(err) = self.call_write(0, &buf).await {
             rollback(h);
             return Err(err);
